@@ -20,7 +20,7 @@ Pieces (DESIGN.md section 2.3):
   E9  name constants                           -> strings
   E10 option parsers                           -> parseImin, parseImax, parseIstop
 """
-import ast, os, sys, re, json
+import ast, re, os, sys, re, json
 
 class ExtractError(Exception):
     pass
@@ -587,6 +587,90 @@ def extract_flags(repo):
         fail("visit_TheoryAtom: flags for the theory term changed")
     return {"replaceFuture": flags[0], "failFuture": flags[1], "failPast": flags[2], "telGuard": guards["tel"], "delGuard": guards["del"]}
 
+
+def extract_directive(repo):
+    """
+    E11. ProgramTransformer.visit_Program: what a `#program <name>.` directive becomes — the new part name, the final flag,
+    the part recorded for the following statements — compiled statement by statement (assignments to prg.name / self.__final /
+    self.__part, one-armed ifs over them); the two appended parameters must be the time parameter names.
+    E12. ProgramTransformer.visit: rules of the final part get the `__final(t)` literal exactly under the guard found here.
+    """
+    tree = parse_file(repo, "telingo/transformers/program.py")
+    fn = find_func(tree, "visit_Program", "ProgramTransformer")
+    ren = {"prg.name": "name", "self.__final": "final", "self.__part": "part"}
+    def cexpr(n, types):
+        src = ast.unparse(n)
+        for k, v in ren.items():
+            src = src.replace(k, v)
+        c = ExprC(Env(types)).expr(ast.parse(src, mode="eval").body)
+        if not c[2]:
+            fail("visit_Program: impure expression " + src, n)
+        return c
+    types = {"name": "str"}
+    lines = []
+    params = []
+    returned = False
+    def assign(st, guard=None):
+        tgt = ast.unparse(st.targets[0]) if len(st.targets) == 1 else None
+        if tgt not in ren:
+            fail("visit_Program: unexpected assignment target", st)
+        var = ren[tgt]
+        c = cexpr(st.value, types)
+        want = {"name": "str", "final": "bool", "part": "str"}[var]
+        if c[1] != want:
+            fail("visit_Program: type of the assigned value", st)
+        if guard is None:
+            lines.append("  let {} := {}".format(var, c[0]))
+        else:
+            if var not in types:
+                fail("visit_Program: conditional assignment to an unset variable", st)
+            lines.append("  let {} := if {} then {} else {}".format(var, guard, c[0], var))
+        types[var] = want
+    body = [st for st in fn.body if not (isinstance(st, ast.Expr) and isinstance(st.value, ast.Constant))]   # docstring
+    for st in body:
+        if returned:
+            fail("visit_Program: statement after return", st)
+        if isinstance(st, ast.Assign):
+            assign(st)
+        elif isinstance(st, ast.If):
+            if st.orelse or not all(isinstance(x, ast.Assign) for x in st.body):
+                fail("visit_Program: unexpected conditional", st)
+            g = cexpr(st.test, types)
+            if g[1] != "bool":
+                fail("visit_Program: non-boolean test", st)
+            for x in st.body:
+                assign(x, g[0])
+        elif isinstance(st, ast.Expr) and isinstance(st.value, ast.Call) and ast.unparse(st.value.func) == "prg.parameters.append":
+            a = ast.unparse(st.value.args[0])
+            m = re.match(r"^_ast\.Id\(prg\.location, _tf\.(g_time_parameter_name(?:_alt)?)\)$", a)
+            if not m:
+                fail("visit_Program: unexpected parameter " + a, st)
+            params.append(m.group(1))
+        elif isinstance(st, ast.Return) and ast.unparse(st.value) == "prg":
+            returned = True
+        else:
+            fail("visit_Program: unexpected statement " + ast.unparse(st).split("\n")[0], st)
+    if params != ["g_time_parameter_name", "g_time_parameter_name_alt"]:
+        fail("visit_Program: the program parameters are not (time, time_alt): {}".format(params))
+    for v in ("name", "final", "part"):
+        if v not in types:
+            fail("visit_Program: {} is never set".format(v))
+    # E12: the guard under which `__append_final` is applied
+    vf = find_func(tree, "visit", "ProgramTransformer")
+    guard = None
+    for n in ast.walk(vf):
+        if isinstance(n, ast.If) and len(n.body) == 1 and ast.unparse(n.body[0]) == "self.__append_final(x)" and not n.orelse:
+            guard = ast.unparse(n.test)
+    if guard != "self.__final and isinstance(x, _ast.AST) and hasattr(x, 'body')":
+        fail("visit: unexpected guard of __append_final: {}".format(guard))
+    af = find_func(tree, "__append_final", "ProgramTransformer")
+    src = ast.unparse(af)
+    if "'__final'" not in src and '"__final"' not in src:
+        fail("__append_final: the literal is not __final")
+    if src.count("x.body.append(") != 1:
+        fail("__append_final: expected exactly one appended body literal")
+    return "\n".join(lines)
+
 # --------------------------------------------------------------------------- writers
 
 HEADER = "/- GENERATED by tools/extract.py from /repo — do not edit.  Regenerated on every check. -/\n"
@@ -690,6 +774,17 @@ structure OpEntry where
     t += "\nend TelModel.Generated\n"
     files["Tables.lean"] = t
 
+    dr = extract_directive(repo)
+    files["Directive.lean"] = HEADER + """namespace TelModel.Generated
+
+/-- E11. `ProgramTransformer.visit_Program`: (new part name, final flag, part recorded for the following statements)
+    for a `#program name.` directive; the directive also gets the parameters `(__t, __u)` -/
+def visitProgram (name : String) : String × Bool × String :=
+""" + dr + """
+  (name, final, part)
+
+end TelModel.Generated
+"""
     fl = extract_flags(repo)
     files["Flags.lean"] = HEADER + """set_option linter.unusedVariables false
 namespace TelModel.Generated
